@@ -22,7 +22,7 @@ from pathlib import Path
 from typing import Any, Dict, List, Optional, Tuple
 
 sys.path.insert(0, str(Path(__file__).resolve().parent.parent))
-from vc import core, smt  # noqa: E402
+from vc import core, pystrops, smt  # noqa: E402
 from vc.core import BOUNDED_OK, DISCHARGED, REFUTED, UNDECIDED, Check  # noqa: E402
 from vc.pysrc import module_ast, qualname_of  # noqa: E402
 from vc.pyvc import ClassV, Engine, ObjV, PathResult, builtin_class  # noqa: E402
@@ -88,7 +88,12 @@ def mapper_totality(chk: Check, rel: str, fname: str, want_base: str, extra_args
     ob.backend = "pyvc-paths"
     try:
         eng = Engine(max_paths=20000)
-        eng.nondet_opaque = True      # unmodelled string surgery (split / regex groups) may go either way
+        eng.nondet_opaque = True      # a CONDITION on an unmodelled value may go either way ...
+        pystrops.install(eng)         # ... but partial operations are modelled with their raising outcome: split ->
+        #                               list of symbolic length (lst[k] raises IndexError unless the path forces
+        #                               len > k), re.search -> None | match (None.group raises AttributeError, group(k)
+        #                               IndexError), int(text) ValueError, dict[text] KeyError; an operation on a value
+        #                               that is still unmodelled leaves the subset (undecided), it is never "total"
         msg = eng.sym_str("message")
 
         class Err:
@@ -103,40 +108,100 @@ def mapper_totality(chk: Check, rel: str, fname: str, want_base: str, extra_args
             ob.status, ob.detail = UNDECIDED, ab[0].abort_reason
             return
         base = eng.lookup_global("Exceptions/__init__.py", want_base)
-        bad = []
+        vtl_base = eng.lookup_global("Exceptions/__init__.py", "VTLEngineException")
+
+        def is_a(v: Any, b: Any) -> bool:
+            return isinstance(v, ObjV) and isinstance(v.cls, ClassV) and v.cls.is_subclass_of(b)
+        groups: Dict[str, List[PathResult]] = {}
         for p in paths:
             v = p.value
-            ok = p.kind == "return" and isinstance(v, ObjV) and isinstance(v.cls, ClassV) and v.cls.is_subclass_of(base)
-            if not ok:
-                bad.append(p)
-        if not bad:
+            if p.kind == "return" and is_a(v, base):
+                continue
+            if p.kind == "raise" and is_a(v, vtl_base):
+                continue          # a VTL exception raised by the mapper itself still surfaces as a VTL error
+            if p.kind == "raise":
+                cls = getattr(getattr(v, "cls", None), "name", None) or type(v).__name__
+                groups.setdefault(f"raises-{cls}", []).append(p)
+            else:
+                groups.setdefault("fall-through", []).append(p)
+        chk.extra.setdefault("mapper_paths", {})[fname] = len(paths)
+        if not groups:
             ob.status, ob.detail = DISCHARGED, f"{len(paths)} paths, every one returns a {want_base}"
             return
-        p = bad[0]
-        ob.status = REFUTED
-        ob.detail = f"{len(bad)} of {len(paths)} paths do not return a {want_base}: outcome {p.kind} {str(p.value)[:80]} under " \
-                    f"{[str(c.sx)[:60] for c in p.pc if smt.is_sym(c)][-3:]}"
-        ob.finding_key = f"{fname}::fall-through"
-        ob.witness = {"outcome": p.kind, "value": str(p.value)[:120]}
-        ob.replayed, ob.replay_detail = replay_mapper(rel, fname, "Binder Error: some failure no branch recognises", want_base)
+        first = True
+        for gname, bad in sorted(groups.items()):
+            o = ob if first else chk.ob(f"{f}::total::{gname}", f, ob.clause)
+            first = False
+            o.backend = "pyvc-paths"
+            p = bad[0]
+            what = f"raises {gname[7:]}" if gname.startswith("raises-") else f"returns {str(p.value)[:80]}"
+            o.status = REFUTED
+            o.detail = f"{len(bad)} of {len(paths)} paths do not end in a {want_base}: the mapper {what} under " \
+                       f"{[str(c.sx)[:70] for c in p.pc if smt.is_sym(c)][-4:]}"
+            o.finding_key = f"{fname}::{gname}"
+            o.witness = {"outcome": p.kind, "value": str(p.value)[:120], "group": gname}
+            # concrete message: solver model of the path condition first, then texts built from its literals
+            cands: List[str] = []
+            for q in bad[:6]:
+                try:
+                    t = pystrops.model_text(eng, q.pc, msg)
+                except Exception:  # noqa: BLE001
+                    t = None
+                if t is not None and t not in cands:
+                    cands.append(t)
+                for t2 in pystrops.literal_candidates(q.pc, msg):
+                    if t2 not in cands:
+                        cands.append(t2)
+            have_model = bool(cands)
+            if gname == "fall-through":
+                cands.append("Binder Error: some failure no branch recognises")
+            want_exc = gname[7:] if gname.startswith("raises-") else None
+            hit: Optional[Tuple[str, str]] = None
+            tried = []
+            for text in cands:
+                is_bad, detail, raised = replay_mapper(rel, fname, text, want_base)
+                tried.append(text)
+                if is_bad and (want_exc is None or raised == want_exc):
+                    hit = (text, detail)
+                    break
+                if is_bad and hit is None:
+                    hit = (text, detail)
+            if hit is not None:
+                o.replayed, o.replay_detail = True, hit[1]
+                o.witness["message"] = hit[0]
+            elif have_model:
+                o.replayed = False
+                o.replay_detail = f"no concrete message reproduced the outcome on the real {fname}; tried {tried[:4]}"
+            else:
+                o.replayed, o.replay_detail = None, "no concrete message could be derived from the path condition"
     except Exception as e:  # noqa: BLE001
         ob.status, ob.detail = UNDECIDED, f"{type(e).__name__}: {e}"
 
 
-def replay_mapper(rel: str, fname: str, text: str, want_base: str) -> Tuple[Optional[bool], str]:
+def replay_mapper(rel: str, fname: str, text: str, want_base: str) -> Tuple[bool, str, Optional[str]]:
+    """(outcome violates the clause, description, name of the raised exception class) of the REAL mapper on `text`,
+    tried with duckdb.Error and duckdb.ConversionException."""
     core.boot(full=True)
     import importlib
     import duckdb
     mod = importlib.import_module("vtlengine." + rel[:-3].replace("/", "."))
     exc = importlib.import_module("vtlengine.Exceptions")
     fn = getattr(mod, fname)
-    e = duckdb.Error(text)
-    try:
-        r = fn(e, "SELECT 1") if fname == "_map_query_error" else fn(e, "DS_1", {})
-    except Exception as ex:  # noqa: BLE001
-        return True, f"real {fname}(duckdb.Error({text!r})) raises {type(ex).__name__}: {ex}"
-    ok = isinstance(r, getattr(exc, want_base))
-    return (not ok), f"real {fname}(duckdb.Error({text!r})) returns {type(r).__name__}: {str(r)[:100]}"
+    last = (False, "", None)
+    for ecls in (duckdb.Error, duckdb.ConversionException):
+        e = ecls(text)
+        call = f"real {fname}(duckdb.{ecls.__name__}({text!r}))"
+        try:
+            r = fn(e, "SELECT 1") if fname == "_map_query_error" else fn(e, "DS_1", {})
+        except Exception as ex:  # noqa: BLE001
+            if isinstance(ex, exc.VTLEngineException):
+                last = (False, f"{call} raises the VTL exception {type(ex).__name__}", type(ex).__name__)
+                continue
+            return True, f"{call} raises {type(ex).__name__}: {ex}", type(ex).__name__
+        if not isinstance(r, getattr(exc, want_base)):
+            return True, f"{call} returns {type(r).__name__}: {str(r)[:100]}", None
+        last = (False, f"{call} returns {type(r).__name__}: {str(r)[:100]}", None)
+    return last
 
 
 def main() -> None:  # noqa: C901
